@@ -65,7 +65,7 @@ REACH = ['pywbem._tupleparse:TupleParser.parse_imethodcall',
 
 def plan(tier):
     if tier == 'quick':
-        return dict(cases=260, time_s=90, case_cpu_s=120)
+        return dict(cases=160, time_s=75, case_cpu_s=120)
     return dict(cases=12000, time_s=540, case_cpu_s=240)
 
 
